@@ -3,7 +3,9 @@ import Yaql.Model.EvalOrder
 import Yaql.Model.PerElem
 /-! Driver for C11: predicted probe traces of expression shapes, and of pipelines of streaming operators with
 per-element lambdas.
-pipe  := {"src":{"n":number of elements,"x":X of the source expression},"stages":[stage..]}
+pipe  := {"src":{"n":number of elements,"x":X of the source expression (its eager arguments),
+                 "lazy":bool,"outs":[[X fired when that element is pulled..]..],"fin":[X fired when the end is found..]},
+          "stages":[stage..]}    ("lazy": a generating source such as generate / generateMany; otherwise a list literal)
 stage := {"op":"select"|"filter"|"takeWhile"|"skipWhile"|"selectMany"|"search"|"each"|"accumulate"|"take"|"skip"|"pass"|
           "zip"|"concat"|"join", "eager":[X of the eagerly evaluated arguments..], "bodies":[X per input element..],
           "flags":[bool..], "counts":[n..], "nout":n, "k":n, "seeded":bool, "other":pipe (the secondary collection),
@@ -61,7 +63,10 @@ partial def evalPipe (j : Json) : List Nat × PerElem.Strm :=
     match op with
     | some o => (acc.1 ++ eager, runOn (stageOf o) acc.2)
     | none => (acc.1 ++ [0], acc.2)         -- an unknown operator shows up as the impossible probe 0
-  (jarr j "stages").foldl go (trace (decX (jget s "x")), listSrc (jnat s "n"))
+  let src : PerElem.Strm :=
+    if jhas s "lazy" then ⟨(xssJ s "outs").map fun xs => (xs.map trace).flatten, ((xsJ s "fin").map trace).flatten⟩
+    else listSrc (jnat s "n")
+  (jarr j "stages").foldl go (trace (decX (jget s "x")), src)
 
 /-- `{"xs":[X...],"pipes":[pipe...]}` -> `{"traces":[[ids]...],"plogs":[[ids]...]}` -/
 def handle (req : Json) : Json :=
